@@ -5,6 +5,7 @@ import (
 	"fmt"
 	"regexp"
 	"strconv"
+	"strings"
 
 	"gopkg.in/yaml.v3"
 )
@@ -34,7 +35,7 @@ func yamlMarshalStream(vs []any) ([]byte, error) {
 		// written plain it would read back as a merge key, not as data.
 		var node yaml.Node
 
-		err := node.Encode(v)
+		err := node.Encode(yamlGuardStrings(v))
 		if err != nil {
 			return nil, err
 		}
@@ -59,6 +60,79 @@ func yamlQuoteMergeStrings(node *yaml.Node) {
 	for _, child := range node.Content {
 		yamlQuoteMergeStrings(child)
 	}
+}
+
+// yamlQuoted is a string that is written double-quoted.
+type yamlQuoted string
+
+func (s yamlQuoted) MarshalYAML() (any, error) {
+	return &yaml.Node{
+		Kind:  yaml.ScalarNode,
+		Tag:   "!!str",
+		Value: string(s),
+		Style: yaml.DoubleQuotedStyle,
+	}, nil
+}
+
+// yamlGuardStrings returns a copy of v in which every string that the encoder
+// would write as a block scalar that does not read back as the same string
+// (see yamlBlockUnsafe) is marked to be written double-quoted instead.
+func yamlGuardStrings(v any) any {
+	switch v2 := v.(type) {
+	case string:
+		if yamlBlockUnsafe(v2) {
+			return yamlQuoted(v2)
+		}
+
+		return v2
+
+	case []any:
+		ret := make([]any, len(v2))
+
+		for i, x := range v2 {
+			ret[i] = yamlGuardStrings(x)
+		}
+
+		return ret
+
+	case map[string]any:
+		ret := make(map[any]any, len(v2))
+
+		for k, x := range v2 {
+			ret[yamlGuardStrings(k)] = yamlGuardStrings(x)
+		}
+
+		return ret
+
+	default:
+		return v
+	}
+}
+
+// yamlBlockUnsafe reports whether a multi-line string loses or changes
+// content when written as a literal block scalar: leading line breaks are
+// dropped, and leading white space, lines of white space only and lines
+// starting with a tab are mistaken for indentation.
+func yamlBlockUnsafe(s string) bool {
+	if !strings.Contains(s, "\n") {
+		return false
+	}
+
+	if s[0] == '\n' || s[0] == ' ' || s[0] == '\t' {
+		return true
+	}
+
+	for _, line := range strings.Split(s, "\n") {
+		if strings.HasPrefix(line, "\t") {
+			return true
+		}
+
+		if line != "" && strings.TrimLeft(line, " \t") == "" {
+			return true
+		}
+	}
+
+	return false
 }
 
 var yamlRE = regexp.MustCompile(`(?m)^---$`)
